@@ -44,3 +44,40 @@ enum E_small g_enum = ES_C;
 FILE *g_file = NULL;
 anon_t g_anon = { 3, 4 };
 const int g_cint = 77;
+
+/* ---- audit-round additions (gaps 2-5 of .cache/audit/C11.md) ---------------------- */
+#include <wchar.h>
+#include <complex.h>
+union U0 { int i; char c[6]; double d; };
+typedef int td_arr5[5];
+
+int f_arrparam(struct S0 a[2]) { return a ? a[0].a + a[1].a : -1; }
+static int f_retfp_inner(int x) { return x * 2; }
+int (*f_retfp(int k))(int) { return k ? f_retfp_inner : f_inc; }
+int f_seven(int a, int b, int c, int d, int e, int f, int g) { return a + b + c + d + e + f + g; }
+int f_tdarr(td_arr5 a) { return a ? a[0] : -1; }
+float _Complex f_cplx(float _Complex z) { return z; }
+_Bool f_bool(_Bool b) { return !b; }
+wchar_t f_wc(wchar_t w) { return w + 1; }
+long double f_ld(long double x) { return x + 1; }
+int f_viafn(int x) { return x - 1; }
+void f_un(void *p) { (void)p; }                       /* declared as void f_un(struct { int a; } *) */
+
+_Bool g_b = 1;
+float g_f = 1.5f;
+long double g_ld = 2.25L;
+wchar_t g_w = L'\x3a9';
+union U0 g_u = { 0x01020304 };
+int g_m[2][3] = { { 1, 2, 3 }, { 4, 5, 6 } };
+struct S0 g_as[2] = { { 1, 'a' }, { 2, 'b' } };
+struct S0 *g_ps = &g_s0;
+const double g_cd = 6.5;
+const char *const g_ccs = "const";
+const struct S0 g_cs0 = { 5, 'c' };
+struct { int a; int b; } g_un = { 21, 22 };         /* declared with an unnamed struct type */
+
+/* ---- 300 functions and 300 pointer-sized globals for the "wide" cdefs (gap 1): wf_000 .. wf_299, wg_000 .. wg_299 */
+#define W1(n) void *wg_##n = (void *)(long)(1##n - 1000); int wf_##n(void *p) { (void)p; return 1##n - 1000; }
+#define W10(p) W1(p##0) W1(p##1) W1(p##2) W1(p##3) W1(p##4) W1(p##5) W1(p##6) W1(p##7) W1(p##8) W1(p##9)
+#define W100(p) W10(p##0) W10(p##1) W10(p##2) W10(p##3) W10(p##4) W10(p##5) W10(p##6) W10(p##7) W10(p##8) W10(p##9)
+W100(0) W100(1) W100(2)
